@@ -3,8 +3,13 @@
 package rhp
 
 import (
+	"encoding/json"
 	"fmt"
 	"net"
+	"os"
+	"os/exec"
+	"path/filepath"
+	"regexp"
 	"strings"
 	"testing"
 	"time"
@@ -83,12 +88,86 @@ func (h *c14Host) registerPT(pt rhp3.HostPriceTable) rhp3.HostPriceTable {
 	return pt
 }
 
+// c14Progress notes which case is about to be sent to the handler, for the supervisor.
+func c14Progress(id int, p *c14Program) {
+	var terms []string
+	for _, in := range p.prog {
+		term, _ := c14InstrCoq(in)
+		terms = append(terms, term)
+	}
+	b, _ := json.Marshal(map[string]any{"case": id, "program": terms, "data": p.d.n})
+	os.WriteFile(filepath.Join(os.Getenv("VERIF_OUT"), "exec_progress.json"), b, 0o644)
+}
+
+// c14Supervise runs the named test of this binary in a child process.  A panic in a
+// goroutine the handler spawns (executeProgram) kills the child; the supervisor turns
+// that into a monitor hit naming the hostd function and the case that was being executed,
+// so that the check reports a failing input instead of a broken harness.
+func c14Supervise(t *testing.T, run string) {
+	out := os.Getenv("VERIF_OUT")
+	if out == "" {
+		out = t.TempDir()
+	}
+	cmd := exec.Command(os.Args[0], "-test.run="+run, "-test.count=1", "-test.timeout=55m")
+	cmd.Env = append(os.Environ(), "VERIF_C14_INNER=1", "VERIF_OUT="+out)
+	b, err := cmd.CombinedOutput()
+	if err == nil {
+		return
+	}
+	text := string(b)
+	i := strings.Index(text, "panic: ")
+	if i < 0 && !strings.Contains(text, "fatal error:") {
+		t.Fatalf("inner test failed without a panic: %v\n%s", err, text)
+	}
+	if i < 0 {
+		i = strings.Index(text, "fatal error:")
+	}
+	msg := text[i:]
+	if j := strings.Index(msg, "\n"); j > 0 {
+		msg = msg[:j]
+	}
+	site := "unknown"
+	if m := regexp.MustCompile(`go\.sia\.tech/hostd/v2/([\w/]+\.[\w.()*]+)\(`).FindStringSubmatch(text[i:]); m != nil {
+		site = m[1]
+		if k := strings.LastIndex(site, "/"); k >= 0 {
+			site = site[k+1:]
+		}
+		site = strings.NewReplacer("(", "", ")", "", "*", "").Replace(site)
+	}
+	var prog map[string]any
+	if pb, err := os.ReadFile(filepath.Join(out, "exec_progress.json")); err == nil {
+		json.Unmarshal(pb, &prog)
+	}
+	caseID := -1
+	if v, ok := prog["case"].(float64); ok {
+		caseID = int(v)
+	}
+	rec, _ := json.Marshal(map[string]any{"case": caseID, "desc": "RPCExecuteProgram through handleRPCExecute (process died)",
+		"sig": "panic-handler-goroutine-" + site, "detail": fmt.Sprintf("%s; program %v, data %v bytes", msg, prog["program"], prog["data"])})
+	f, err := os.OpenFile(filepath.Join(out, "monitor.jsonl"), os.O_APPEND|os.O_CREATE|os.O_WRONLY, 0o644)
+	if err != nil {
+		t.Fatal(err)
+	}
+	f.Write(append(rec, '\n'))
+	f.Close()
+	if _, err := os.Stat(filepath.Join(out, "stats.json")); err != nil {
+		st, _ := json.Marshal(map[string]any{"cases": 0, "steps": 0, "distinct": 0, "distinct_nontrivial": 0, "hist": map[string]int{"exec:process-died": 1},
+			"samples": []string{}, "monitor_failures": 1, "seed": verifSeed(), "shards": 0})
+		os.WriteFile(filepath.Join(out, "stats.json"), st, 0o644)
+	}
+	t.Logf("inner test died: %s (site %s, case %d)", msg, site, caseID)
+}
+
 // TestVerifC14Exec sends generated MDM programs through the real handleRPCExecute
 // (payment by ephemeral account, executeProgram goroutine, finalize exchange).  A panic in
 // the executeProgram goroutine cannot be recovered, so every program first runs at function
 // level on a scratch executor (which also yields the oracle values of its steps); only
 // programs that did not crash there are sent.
 func TestVerifC14Exec(t *testing.T) {
+	if os.Getenv("VERIF_C14_INNER") == "" {
+		c14Supervise(t, "^TestVerifC14Exec$")
+		return
+	}
 	em := newVerifEmitter(t, "From HostdBase Require Import Base.\nFrom HostdMDM Require Import Model.", "case", "check")
 	defer em.Close()
 	h := newC14Host(t)
@@ -124,6 +203,7 @@ func TestVerifC14Exec(t *testing.T) {
 		withContract := rng.Intn(8) != 0 || id < c14Directed
 		badFinal := rng.Intn(6) == 0
 		em.BeginCase(id, fmt.Sprintf("RPCExecuteProgram with %d instructions", len(p.prog)))
+		c14Progress(id, p)
 
 		// ---- function level: oracle values and crash screening
 		var steps []c14Step
@@ -175,13 +255,6 @@ func TestVerifC14Exec(t *testing.T) {
 		}
 		balBefore := h.balance()
 		hTerm := fmt.Sprintf("{| hbal := %s; hrev := %d; hroots := %s; htemps := [] |}", coqCur(balBefore), cur.Revision.RevisionNumber, coqHashes(w.baseRoots))
-		final := "None"
-		if !badFinal {
-			final = fmt.Sprintf("(Some %d%%N)", cur.Revision.RevisionNumber+1)
-		}
-		qTerm := fmt.Sprintf("{| qamount := %s; qcontract := %s; qprog := %s; qdata := %s; qpt := %s; qdur := %d; qfinal := %s |}",
-			coqCur(p.amount), coqBool(withContract), coqList(progTerms), p.d.coq(), c14PtCoq(p.pt), p.dur, final)
-
 		// ---- handler level
 		pt := h.registerPT(p.pt)
 		var outs []string
@@ -237,6 +310,11 @@ func TestVerifC14Exec(t *testing.T) {
 			rev.ValidProofOutputs = append([]types.SiacoinOutput(nil), cur.Revision.ValidProofOutputs...)
 			rev.MissedProofOutputs = append([]types.SiacoinOutput(nil), cur.Revision.MissedProofOutputs...)
 			transfer := last.AdditionalCollateral.Add(last.FailureRefund)
+			if rev.MissedProofOutputs[1].Value.Cmp(transfer) < 0 {
+				// the host's missed output cannot cover the burn: no acceptable revision exists
+				badFinal = true
+				transfer = types.ZeroCurrency
+			}
 			rev.MissedProofOutputs[1].Value = rev.MissedProofOutputs[1].Value.Sub(transfer)
 			rev.MissedProofOutputs[2].Value = rev.MissedProofOutputs[2].Value.Add(transfer)
 			fin := rhp3.RPCFinalizeProgramRequest{RevisionNumber: rev.RevisionNumber, Signature: h.renterKey.SignHash(rhp.HashRevision(rev))}
@@ -255,6 +333,12 @@ func TestVerifC14Exec(t *testing.T) {
 			var fresp rhp3.RPCFinalizeProgramResponse
 			rerr = s.ReadResponse(&fresp, 4096)
 		})
+		final := "None"
+		if !badFinal {
+			final = fmt.Sprintf("(Some %d%%N)", cur.Revision.RevisionNumber+1)
+		}
+		qTerm := fmt.Sprintf("{| qamount := %s; qcontract := %s; qprog := %s; qdata := %s; qpt := %s; qdur := %d; qfinal := %s |}",
+			coqCur(p.amount), coqBool(withContract), coqList(progTerms), p.d.coq(), c14PtCoq(p.pt), p.dur, final)
 		after, err := h.node.Contracts.Contract(cid)
 		if err != nil {
 			t.Fatal(err)
